@@ -11,7 +11,7 @@ open GtModel.EditMatrix (sharedPrefixLen trimLens middle solve cellAt solve_zero
 /-! ### leaves -/
 
 theorem leafLeaf_cost_zero_iff (a b : Scalar) : (leafLeaf a b).cost = 0 ↔ a.eq b = true := by
-  simp only [leafLeaf, mkMatch_cost]
+  simp only [leafLeaf, mkMatch_costZ]
   constructor
   · intro h
     split at h
@@ -45,7 +45,7 @@ theorem fixedScript_cost_zero (fcs tcs : List Tree) (tbl : List (List Script))
     (H : ∀ i, i < fcs.length → i < tcs.length →
       ((tbl.getD i []).getD i (mkMatch 0)).cost = 0 → (fcs.getD i dT).eq (tcs.getD i dT) = true)
     (h : (fixedScript fcs tcs tbl).cost = 0) : eqL fcs tcs = true := by
-  simp only [fixedScript, mkCompound_cost, sumCosts_append, Nat.add_eq_zero_iff, sumCosts_eq_zero,
+  simp only [fixedScript, mkCompound_costZ, sumCosts_appendZ, Nat.add_eq_zero_iff, sumCosts_eq_zero,
     List.mem_map, List.mem_range, forall_exists_index, and_imp] at h
   obtain ⟨⟨hp, hr⟩, hi⟩ := h
   have h1 : fcs.length - Nat.min fcs.length tcs.length = 0 := by
@@ -90,7 +90,7 @@ theorem edScript_cost_zero (fcs tcs : List Tree) (pen : Nat) (tbl : List (List S
     have := hc i hi
     rw [cellAt_tab (fun r c => ((tbl.getD (c + (trimLens fcs tcs).1) []).getD (r + (trimLens fcs tcs).1) (mkMatch 0)).cost)
       _ _ i i hi2 hi] at this
-    rw [middle_length] at hi hi2
+    rw [middle_lengthZ] at hi hi2
     have := H _ _ (by omega) (by omega) this
     rw [middle_getD dT fcs _ i hi, middle_getD dT tcs _ i hi2]
     exact this)
